@@ -124,11 +124,11 @@ PROPS.update({
 
 
 PROPS.update({
-    "C09": {"modules": ["Carapace.Props.C09"], "ops": [("invoke", {"quick": 8000, "thorough": 400000})], "race_ops": [("batchrace", {"quick": 1500, "thorough": 60000})],
+    "C09": {"modules": ["Carapace.Props.C09", "Carapace.Props.C09Go"], "ops": [("invoke", {"quick": 8000, "thorough": 400000})], "race_ops": [("batchrace", {"quick": 1500, "thorough": 60000})],
             "rule": ALG_RULE + "; race scenarios: Batches of 2-5 members that share one captured Action (plain, under NoSpace / Usage / MultiParts / Prefix / Style / nested Batch), members that call Setenv on a Context with spare capacity, edit args / value, members that register completions (Gen, FlagCompletion on a shared command), members that run embedded commands of their own through ActionExecute, members behind the file cache with equal and different keys - each invoked two or three times on a -race build",
             "assumptions": ALG_ASSUME + ["data-race freedom is a property of the Go runtime execution: it is searched with the race detector on generated Batch scenarios (members sharing captured Actions, Setenv, nested batches), never proved; Batches with ActionExecute / Cache members have no Lean model: the harness compares their candidates with those of the members invoked one after the other"],
             "claimed": True, "engine": "alg",
-            "level_text": ("`C09_schedule_independent` / `C09_any_two_schedules`: for every complete schedule of the member goroutines (any permutation) the result slots hold exactly the members' sequential results (each member writes only its own slot; induction over the schedule); `C09_equals_sequential`, `C09_merge_values` (merged by inserted value, later replaces earlier), `C09_merge_usage` (last non-empty usage), `C09_merge_messages` (union), `C09_batch_small`. The model is bound to batch.go / invokedAction.go by exact comparison of invoked Batch results on random expressions. "
+            "level_text": ("`C09_goroutines_covered` (C09Go.lean): the functions of the library that start goroutines, create channels or select, regenerated from /repo on every run with a digest of their bodies, are exactly `parallelize` and `Action.Timeout` - the two the models are about. " + "`C09_schedule_independent` / `C09_any_two_schedules`: for every complete schedule of the member goroutines (any permutation) the result slots hold exactly the members' sequential results (each member writes only its own slot; induction over the schedule); `C09_equals_sequential`, `C09_merge_values` (merged by inserted value, later replaces earlier), `C09_merge_usage` (last non-empty usage), `C09_merge_messages` (union), `C09_batch_small`. The model is bound to batch.go / invokedAction.go by exact comparison of invoked Batch results on random expressions. "
                            "Partial by nature: the absence of data races is searched, not proved - Batch scenarios run on a -race build and any report of the race detector is a violation."),
             "level_note": ALG_NOTE + " The Go scheduler and memory model are outside the model; race freedom is only searched."},
 })
@@ -157,7 +157,7 @@ PROPS.update({
 
 
 PROPS.update({
-    "C19": {"modules": ["Carapace.Props.C19"], "ops": [("timeout", {"quick": 150, "thorough": 5000})], "race_ops": [("timeoutrace", {"quick": 80, "thorough": 2000})],
+    "C19": {"modules": ["Carapace.Props.C19", "Carapace.Props.C09Go"], "ops": [("timeout", {"quick": 150, "thorough": 5000})], "race_ops": [("timeoutrace", {"quick": 80, "thorough": 2000})],
             "rule": "one Timeout-wrapped Action value (d = 20/30/40 ms, optionally nested in Timeout(2d), optionally a Batch member) invoked 1-3 times in a row with wrapped-action durations 0, d/4, 3d, 4d or never-returning, with and without waiting for the abandoned computation to finish before the next invocation; the abandoned computation always goes on to produce its result; the same scenarios on a -race build; non-trivial = every case; distinct = distinct input digest",
             "assumptions": ["durations within a factor 3 of d are not generated: the real scheduling margin is observed with a tolerance of 250 ms, not proved", "the Go memory model's channel rule (a receive happens after the send) is the premise of `C19_hb`"],
             "claimed": True, "engine": "conc",
